@@ -17,18 +17,39 @@ def shape_fn(name, builder, file=GLB, nth=1, extra=""):
 A(Raw(
     shape_fn("share_control_fields", "share_control_header") +
     shape_fn("share_data_fields", "share_data_header") +
-    shape_fn("demand_active_fields", "ts_demand_active_pdu", extra=" && arr_of(f[6].1, |g: Seq<(Seq<char>, MV)>| capability_set_fields(g))") +
+    shape_fn("demand_active_fields", "ts_demand_active_pdu", extra=" && cap_sets_ok(f[6].1->Arr_0)") +
     shape_fn("control_fields", "ts_control_pdu") +
     shape_fn("error_info_fields", "ts_set_error_info_pdu") +
     shape_fn("fp_update_fields", "ts_fp_update") +
-    shape_fn("bitmap_data_fields", "ts_bitmap_data") +
-    shape_fn("fp_bitmap_fields", "ts_fp_update_bitmap") +
+    shape_fn("bitmap_data_fields", "ts_bitmap_data", extra=" && f[7].1->Dyn_0 is U16") +
+    shape_fn("fp_bitmap_fields", "ts_fp_update_bitmap", extra=" && rects_ok(f[2].1->Arr_0)") +
     shape_fn("capability_set_fields", "capability_set", file=CAP, nth=2) + r"""
-/// every element of an Array field is a component with the given layout
-pub open spec fn arr_of(m: MV, shape: spec_fn(Seq<(Seq<char>, MV)>) -> bool) -> bool {
-    m is Arr && forall|i: int| 0 <= i < m->Arr_0.len() ==> (#[trigger] m->Arr_0[i]) is Comp && shape(m->Arr_0[i]->Comp_0)
+/// every element is a component with the TS_CAPS_SET layout / the TS_BITMAP_DATA layout
+pub open spec fn cap_sets_ok(s: Seq<MV>) -> bool { forall|i: int| 0 <= i < s.len() ==> (#[trigger] s[i]) is Comp && capability_set_fields(s[i]->Comp_0) }
+pub open spec fn rects_ok(s: Seq<MV>) -> bool { forall|i: int| 0 <= i < s.len() ==> (#[trigger] s[i]) is Comp && bitmap_data_fields(s[i]->Comp_0) }
+/// Message::read keeps the layout (same_shape), spelled out one level at a time
+pub open spec fn same_kind(a: MV, b: MV) -> bool {
+    (a is U8 <==> b is U8) && (a is U16 <==> b is U16) && (a is U32 <==> b is U32) && (a is Bytes <==> b is Bytes) && (a is Trame <==> b is Trame)
+    && (a is Comp <==> b is Comp) && (a is Check <==> b is Check) && (a is Opt <==> b is Opt) && (a is Dyn <==> b is Dyn) && (a is Arr <==> b is Arr)
 }
+pub proof fn lemma_read_keeps_layout(a: MV, b: MV)
+    requires same_shape(a, b), a is Comp,
+    ensures b is Comp, b->Comp_0.len() == a->Comp_0.len(),
+        forall|i: int| 0 <= i < a->Comp_0.len() ==> (#[trigger] b->Comp_0[i]).0 == a->Comp_0[i].0 && same_kind(a->Comp_0[i].1, b->Comp_0[i].1) && same_shape(a->Comp_0[i].1, b->Comp_0[i].1),
+{ reveal_with_fuel(same_shape, 2); }
+pub proof fn lemma_read_keeps_elements(a: MV, b: MV)
+    requires same_shape(a, b), a is Arr,
+    ensures b is Arr, forall|i: int| 0 <= i < b->Arr_0.len() ==> same_shape(*a->Arr_1, #[trigger] b->Arr_0[i]),
+{}
+pub proof fn lemma_read_keeps_dyn(a: MV, b: MV)
+    requires same_shape(a, b), a is Dyn,
+    ensures b is Dyn, same_kind(*a->Dyn_0, *b->Dyn_0), same_shape(*a->Dyn_0, *b->Dyn_0),
+{ reveal_with_fuel(same_shape, 2); }
 """, mod="global", name="reader_shapes"))
+KEEP = [(r"\.message\.read\(&mut Cursor::new", 1, "let ghost m0 = %s.message.mv();", "before"),
+        (r"\.message\.read\(&mut Cursor::new", 1, "proof { lemma_read_keeps_layout(m0, %s.message.mv()); %s }")]
+def keep(var, more=""):
+    return [(KEEP[0][0], 1, KEEP[0][2] % var, "before"), (KEEP[1][0], 1, KEEP[1][2] % (var, more))]
 # `pdu.pdu_type != PDUType::PdutypeDatapdu` calls the derived PartialEq: Verus needs its meaning.  For a field-less enum
 # #[derive(PartialEq)] is equality of the variants (alternative with the same effect: add_derive="Structural" on the Item in session.py)
 A(Raw(r"""
@@ -49,32 +70,45 @@ G("from_stream", impl=r"impl PDU", props=["C06"], keys=True,
            ("C06", "known-kinds-only", "r is Ok ==> (r->Ok_0.pdu_type is PdutypeDemandactivepdu || r->Ok_0.pdu_type is PdutypeDatapdu || r->Ok_0.pdu_type is PdutypeConfirmactivepdu || r->Ok_0.pdu_type is PdutypeDeactivateallpdu)"),
            ("C06", "data-layout", "r is Ok && r->Ok_0.pdu_type is PdutypeDatapdu ==> share_data_fields(r->Ok_0.message.fields())"),
            ("C06", "demand-active-layout", "r is Ok && r->Ok_0.pdu_type is PdutypeDemandactivepdu ==> demand_active_fields(r->Ok_0.message.fields())")],
-  pre=SS2)
+  hints=[(r"header\.read\(stream\)\?;", 1, "let ghost m0 = header.mv();", "before"),
+         (r"header\.read\(stream\)\?;", 1, "proof { lemma_read_keeps_layout(m0, header.mv()); }")])
 G("from_control", impl=r"impl PDU", props=["C06"], keys=True,
   requires=["has_key(control.fields(), \"pduType\"@)", "has_key(control.fields(), \"pduMessage\"@)"],
   ensures=[("C06", "known-kinds-only", "r is Ok ==> (r->Ok_0.pdu_type is PdutypeDemandactivepdu || r->Ok_0.pdu_type is PdutypeDatapdu || r->Ok_0.pdu_type is PdutypeConfirmactivepdu || r->Ok_0.pdu_type is PdutypeDeactivateallpdu)"),
            ("C06", "data-layout", "r is Ok && r->Ok_0.pdu_type is PdutypeDatapdu ==> share_data_fields(r->Ok_0.message.fields())"),
            ("C06", "demand-active-layout", "r is Ok && r->Ok_0.pdu_type is PdutypeDemandactivepdu ==> demand_active_fields(r->Ok_0.message.fields())")],
-  pre=SS2)
+  hints=keep("pdu", """if pdu.pdu_type is PdutypeDemandactivepdu {
+        lemma_read_keeps_elements(m0->Comp_0[6].1, pdu.message.fields()[6].1);
+        let elems = pdu.message.fields()[6].1->Arr_0;
+        assert forall|i: int| 0 <= i < elems.len() implies (#[trigger] elems[i]) is Comp && capability_set_fields(elems[i]->Comp_0) by {
+            lemma_read_keeps_layout(capability::capability_set_view(1, Seq::empty()), elems[i]);
+        } }"""))
 G("from_pdu", impl=r"impl DataPDU", props=["C06"], keys=True,
   requires=["has_key(data_pdu.message.fields(), \"pduType2\"@)", "has_key(data_pdu.message.fields(), \"payload\"@)"],
   ensures=[("C06", "known-kinds-only", "r is Ok ==> (r->Ok_0.pdu_type is Pdutype2Synchronize || r->Ok_0.pdu_type is Pdutype2Control || r->Ok_0.pdu_type is Pdutype2Fontlist || r->Ok_0.pdu_type is Pdutype2Fontmap || r->Ok_0.pdu_type is Pdutype2SetErrorInfoPdu)"),
            ("C06", "control-layout", "r is Ok && r->Ok_0.pdu_type is Pdutype2Control ==> control_fields(r->Ok_0.message.fields())"),
            ("C06", "error-info-layout", "r is Ok && r->Ok_0.pdu_type is Pdutype2SetErrorInfoPdu ==> error_info_fields(r->Ok_0.message.fields())")],
-  pre=SS2)
+  hints=keep("result"))
 G("from_fp", impl=r"impl FastPathUpdate", props=["C06", "C10"], keys=True,
   requires=["has_key(fast_path.fields(), \"updateHeader\"@)", "has_key(fast_path.fields(), \"updateData\"@)"],
   ensures=[("C06,C10", "bitmap-layout", "r is Ok && r->Ok_0.fp_type is FastpathUpdatetypeBitmap ==> fp_bitmap_fields(r->Ok_0.message.fields())")],
-  pre=SS2)
+  hints=keep("result", """if result.fp_type is FastpathUpdatetypeBitmap {
+        lemma_read_keeps_elements(m0->Comp_0[2].1, result.message.fields()[2].1);
+        let elems = result.message.fields()[2].1->Arr_0;
+        assert forall|i: int| 0 <= i < elems.len() implies (#[trigger] elems[i]) is Comp && bitmap_data_fields(elems[i]->Comp_0) by {
+            lemma_read_keeps_layout(bitmap_data_view(), elems[i]);
+            lemma_read_keeps_dyn(bitmap_data_view()->Comp_0[7].1, elems[i]->Comp_0[7].1);
+        } }"""))
 
 # ---- client
 G("new", impl=r"impl Client", props=["C12"],
   ensures=[("C12", "initial-state", "r.st() is DemandActivePDU && r.uid() == user_id && r.chan() == channel_id && r.share() is None")])
 G("read_demand_active_pdu", impl=r"impl Client", props=["C06", "C12"], keys=True,
   ensures=STATE_FRAME + [("C12", "share-id-recorded", "r is Ok && r->Ok_0 ==> final(self).share() is Some"), ("C12", "share-id-kept", "r is Ok && !r->Ok_0 ==> final(self).share() == old(self).share()")],
-  hints=[(r"cast!\(DataType::Trame, pdu\.message\[\"capabilitySets\"\]\)", 1, "it:", "at")],
+  hints=[(r"cast!\(DataType::Trame, pdu\.message\[\"capabilitySets\"\]\)", 1, "it:", "at"),
+         (r"for capability_set in", 1, "let ghost caps = pdu.message.fields()[6].1->Arr_0;", "before")],
   loops={1: """invariant
-            forall|k: int| 0 <= k < it.elements.len() ==> (#[trigger] it.elements[k]).fview() is Comp && capability_set_fields(it.elements[k].fview()->Comp_0),
+            it.seq().len() == caps.len(), forall|k: int| 0 <= k < it.seq().len() ==> (#[trigger] it.seq()[k]).fview() == caps[k], cap_sets_ok(caps),
             self.st() == old(self).st() && self.same_config(old(self)) && self.share() == old(self).share(),"""})
 G("read_synchronize_pdu", impl=r"impl Client", props=["C06", "C12"], keys=True, ensures=STATE_FRAME + [(None, "share", "final(self).share() == old(self).share()")])
 G("read_control_pdu", impl=r"impl Client", props=["C06", "C12"], keys=True, ensures=STATE_FRAME + [(None, "share", "final(self).share() == old(self).share()")])
